@@ -44,6 +44,8 @@ def main():
         sh(['git', '-C', '/repo', 'worktree', 'remove', '--force', wt])
         shutil.rmtree(wt, ignore_errors=True)
         sh(['git', '-C', '/repo', 'worktree', 'prune'])
+    if '--no-checks' in sys.argv:
+        return out
     # 3. our checks
     rc, o = sh(['git', '-C', '/repo', 'status', '--porcelain'])
     assert o.strip() == '', 'repo dirty: ' + o
